@@ -54,10 +54,10 @@ def run(tier: str, budget: Budget, rnd, prop: str) -> StreamResult:
         objs = []
         for j in range(nobj):
             n = rnd.choice([2, 3, 3, 4, 4, 5])
-            samg = rnd.random() < 0.25 and prop != "C03" and prop != "C01"
+            samg = (rnd.random() < 0.25 and prop != "C03" and prop != "C01") or prop == "C04"
             v = G.sam_game(n, rnd) if samg else G.sa_game(n, rnd, kind=rnd.choice(["int", "dyadic"]),
                                                            neg_singletons=rnd.random() < 0.3)
-            comp = rnd.choice(["sam:1", "sam:2"]) if samg else rnd.choice(["sa", "sac"])
+            comp = rnd.choice(["sam:0", "sam:1", "sam:2", "sam:3"] if prop == "C04" else ["sam:1", "sam:2"]) if samg else rnd.choice(["sa", "sac"])
             name = f"t{trial}o{j}"
             g = IncompleteCooperativeGame(n, computer(comp))
             script.add(f"tab new {name} {n}", "ok")
@@ -197,6 +197,26 @@ def run(tier: str, budget: Budget, rnd, prop: str) -> StreamResult:
                         res.violation(f"true value outside the interval of coalition {c} after a history", {**case, "coalition": c},
                                       key="bounds:unsound-after-history")
                         break
+            if prop == "C04":
+                Ks = o["K"]
+                bad = None
+                for c in range(N):
+                    if not (L[c] <= v[c] <= U[c]):
+                        bad = f"true value outside [{rs(L[c])}, {rs(U[c])}] at coalition {c} after a history"
+                        break
+                    for x in G.submasks(c):
+                        if L[x] < L[c]:
+                            bad = f"lower bounds not monotone non-increasing after a history: lo({x}) < lo({c})"
+                        if x not in (0, c) and x in Ks and c not in Ks and U[c] > v[x]:
+                            bad = f"upper({c}) exceeds the value of known sub-coalition {x} after a history"
+                    if c not in Ks and not bad:
+                        for T in range(N):
+                            if T & c == c and T != c and T in Ks and U[c] > v[T] - L[T ^ c]:
+                                bad = f"upper({c}) exceeds v({T}) - lower({T ^ c}) after a history"
+                    if bad:
+                        break
+                if bad:
+                    res.violation(bad, case, key="bounds:sam-after-history")
             if prop == "C03":
                 other = "sac" if o["comp"] == "sa" else "sa"
                 ob = real_bounds(n, v, sorted(o["K"]), other)
